@@ -171,13 +171,13 @@ def check(groups, exponent, power, res, tr, split_log, prop=None):
         p, out, ref = next((p, o, r) for p, o, r in split_log if any(abs(o[i] - r[i]) > TOL * scale for i in o))
         return (f"a set's share {p} was split as {out}; the documented greedy split (known finding C01-B) gives {ref}: "
                 f"power is lost in a way the known finding does not cover"), None
-    if prop != "C02" and abs(total + rem - power) > TOL * scale:
+    if prop not in ("C02", "C17") and abs(total + rem - power) > TOL * scale:
         fid = "C01-A-deficit-branch" if tr.hit_deficit else ("C01-B-split-drops-power" if lost_in_split else None)
         return f"set-points {total} + remainder {rem} != request {power}", fid
     for iid, sp in dist.items():
         if sp * sgn < -TOL:
             return f"set-point of inverter {iid} = {sp} has the wrong sign for request {power}", None
-    if prop != "C02" and (rem * sgn < -TOL or abs(rem) > mag + TOL * scale):
+    if prop not in ("C02", "C17") and (rem * sgn < -TOL or abs(rem) > mag + TOL * scale):
         fid = "C01-A-deficit-branch" if tr.hit_deficit else None
         return f"remainder {rem} for request {power}", fid
     if prop == "C01":
@@ -196,7 +196,7 @@ def check(groups, exponent, power, res, tr, split_log, prop=None):
                 fid = "C01-A-deficit-branch" if tr.hit_deficit else None
                 return f"inverter {iid} commanded {sp} outside [{i_excl}, {i_incl}]", fid
         g = gtotal * sgn
-        if headroom <= 0 and abs(g) > TOL:
+        if prop != "C17" and headroom <= 0 and abs(g) > TOL:      # (C17 speaks about exclusion zones only)
             fid = "C02-D-exponent-zero" if exponent == 0 else "C02-C-no-headroom-gets-min-power"
             return f"group {bat_id} has no SoC headroom ({headroom}) but is assigned {g}", fid
         if abs(g) > TOL and (g > b_incl + TOL * scale or g < b_excl - TOL * scale):
